@@ -336,7 +336,7 @@ class HObj(object):
     """heap object. kind in frame|list|set|dict|inst|iter"""
     __slots__ = ('kind', 'vars', 'parts', 'ci', 'fields', 'havoc',
                  'pc_len', 'loops_len', 'site', 'parent', 'fnode', 'module',
-                 'self_cls', 'reorder')
+                 'self_cls', 'reorder', 'loops_at')
 
     def __init__(self, kind):
         self.kind = kind
@@ -353,6 +353,7 @@ class HObj(object):
         self.module = None
         self.self_cls = None
         self.reorder = ()       # 'sorted' / 'sort' / 'reverse' applied
+        self.loops_at = None    # the loops active when it was allocated
 
     def copy(self):
         o = HObj(self.kind)
@@ -369,6 +370,7 @@ class HObj(object):
         o.module = self.module
         o.self_cls = self.self_cls
         o.reorder = self.reorder
+        o.loops_at = self.loops_at
         return o
 
     def concrete(self):
@@ -422,6 +424,7 @@ class Path(object):
         o = HObj(kind)
         o.pc_len = len(self.pc)
         o.loops_len = len(self.loops)
+        o.loops_at = self.loops
         o.site = site
         if kind in ('list', 'set', 'dict'):
             o.parts = []
